@@ -203,6 +203,13 @@ impl Property for C04 {
             sc.at(t, Op::Search { node: 0, ih: h, announce: rng.chance(1, 2) });
             t += *rng.pick(&[0u64, 700, 3_500, 10_000]);
         }
+        // shutdown with searches in flight: every handle is dropped (the search steps keep none),
+        // so the handler exits and every open stream must close at that instant
+        if !stale && rng.chance(1, 8) {
+            let off = *rng.pick(&[0u64, 1, 300, 700, 1_499, 1_500, 1_501, 2_000, 2_999, 3_000, 3_001, 4_600, 9_000]);
+            sc.at(t_search + off, Op::Drop { node: 0, crash: rng.chance(1, 2) });
+            sc.params.insert("shutdown".into(), 1);
+        }
         sc.end_ms = t + 500_000;
         sc
     }
@@ -252,7 +259,31 @@ impl Property for C04 {
             Ev::Api { t, ev: ApiEv::BootDone { ok: true }, .. } => Some(*t),
             _ => None,
         });
+        let t_drop: Option<u64> = run.log.iter().find_map(|e| match e {
+            Ev::Api { t, ev: ApiEv::NodeDrop { node: 0, .. }, .. } => Some(*t),
+            _ => None,
+        });
         for s in &views {
+            // (d) node shut down: an open stream closes at once, whatever was outstanding
+            if let Some(td) = t_drop {
+                if s.t_call > td {
+                    continue;
+                }
+                match s.t_end {
+                    None => {
+                        v.violate("C04", "open_after_shutdown", run.end_ms, format!("node shut down at {td} ms; the search issued at {} ms has not closed by {} ms", s.t_call, run.end_ms));
+                        continue;
+                    }
+                    Some(te) if te >= td => {
+                        v.hit("closed_by_shutdown");
+                        if te > td + 2 {
+                            v.violate("C04", "open_after_shutdown", te, format!("node shut down at {td} ms; the search issued at {} ms closed only at {te} ms", s.t_call));
+                        }
+                        continue;
+                    }
+                    _ => {}
+                }
+            }
             if boot_done.map(|b| s.t_call < b).unwrap_or(true) {
                 v.hit("search_before_bootstrap_not_judged");
                 continue;
@@ -338,12 +369,12 @@ impl Property for C04 {
         v
     }
     fn rule(&self) -> &'static str {
-        "one real node bootstrapped against 0..30 stubs whose get_peers behaviour varies per stub: silent, partial (pattern), late (RTT 1.4..3.1 s around the 1.5 s timeout), silent after bootstrap, chain-naming (<= 25 levels x 8 names), error/garbage repliers, honest with peers; optional loss/duplication during the search, send failures (outage windows or random) before/during the search; 1..3 searches, sequential or overlapping, or issued after every contact has gone stale; plus a single-fault sweep (drop / delay past 1.5 s / duplicate / send error on each search datagram) on a subset of fault-free base runs. non-trivial = a search sent at least one query; distinct = distinct order digests"
+        "one real node bootstrapped against 0..30 stubs whose get_peers behaviour varies per stub: silent, partial (pattern), late (RTT 1.4..3.1 s around the 1.5 s timeout), silent after bootstrap, chain-naming (<= 25 levels x 8 names), error/garbage repliers, honest with peers; optional loss/duplication during the search, send failures (outage windows or random) before/during the search; 1..3 searches, sequential or overlapping, or issued after every contact has gone stale; in 1 run of 8 every handle of the node is dropped 0..9 s into the searches (shutdown: open streams must close at once); plus a single-fault sweep (drop / delay past 1.5 s / duplicate / send error on each search datagram) on a subset of fault-free base runs. non-trivial = a search sent at least one query; distinct = distinct order digests"
     }
     fn assumptions(&self) -> Vec<&'static str> {
-        vec!["no socket stalls in this family (they would move the query instants the early-close clause is measured from)", "+-2 ms timer granularity", "the 'handle whose node has died' case cannot be produced through the public API after the C15 repair and is not exercised"]
+        vec!["no socket stalls in this family (they would move the query instants the early-close clause is measured from)", "+-2 ms timer granularity", "'node has shut down' is produced by dropping every handle while search streams are open (a handler killed by a panic cannot be produced through the public API after the C15 repair)"]
     }
     fn required_reach(&self) -> Vec<&'static str> {
-        vec!["nobody_answered", "timely_answer", "late_answer", "send_failed_during_search", "told_about_30_plus_nodes", "search_longer_than_6s", "search_without_good_node"]
+        vec!["nobody_answered", "timely_answer", "late_answer", "send_failed_during_search", "told_about_30_plus_nodes", "search_longer_than_6s", "search_without_good_node", "closed_by_shutdown"]
     }
 }
